@@ -1,6 +1,6 @@
 SPECIFICATION TSpec
 CONSTANTS Names = {1,2,3}
-          Hids = {11,12,13,21,22,23,31,32,33,41,51,61,71,81,91}
+          Hids = {11,12,13,21,22,23,31,32,33,41,51,61,71,81,91,92,93}
 CONSTRAINT HighWater
 POSTCONDITION Accepted
 INVARIANT TypeOK
